@@ -248,6 +248,32 @@ fn gen_corpus(r: &Runner, n: usize) -> Vec<CaseRec> {
             }
         }
     }
+    // very long fields (scanner stages that only start after 256/512 bytes): one offender at every
+    // position beyond 480, random in-class filler incl. obs-text, followed by the normal terminator
+    for (len, seed) in [(640usize, 1u16), (1100, 2)] {
+        for pos in (480..len).step_by(1) {
+            let bad = [0x7fu8, 0x0a, 0x00, 0x20][(pos / 2) % 4];
+            let mut fv = Vec::new();
+            crate::gen::fill(&mut fv, len, 4, seed.wrapping_add((pos / 64) as u16)); // bytes >= 0x80
+            for (i, b) in fv.iter_mut().enumerate() {
+                if i % 3 != 0 {
+                    *b = b'a' + (i % 26) as u8;
+                }
+            }
+            let mut ft = fv.clone();
+            // targets must stay valid UTF-8 around the offender: use ASCII + 2-byte sequences
+            for i in 0..ft.len() {
+                ft[i] = if i % 6 == 0 && i + 1 < ft.len() { 0xc3 } else if i % 6 == 1 { 0xa9 } else { b'a' + (i % 26) as u8 };
+            }
+            fv[pos] = bad;
+            ft[pos] = bad;
+            if pos % 2 == 0 {
+                out.push(CaseRec::new("variant-pair", Entry::Headers, 0, 4, [&b"Name: v"[..], &fv, b"\r\nB: c\r\n\r\n"].concat()));
+            } else {
+                out.push(CaseRec::new("variant-pair", Entry::ReqParse, 0, 4, [&b"GET /"[..], &ft, b" HTTP/1.1\r\n\r\n"].concat()));
+            }
+        }
+    }
     for nd in 0..=20 {
         for d in [b'0', b'f', b'F', b'9'] {
             let mut b = vec![d; nd];
